@@ -12,7 +12,11 @@ ANGLES = {
     4: "Prefer a change whose motive is PERFORMANCE or ROBUSTNESS (a cache, a memo, a sync.Pool, an early exit, a fast path, avoiding a copy or an allocation, a size hint, batching) or ERROR HANDLING (an error that is now swallowed, de-duplicated, attached to another node, reported once instead of each time, or turned into a default), and which goes wrong only when a SECOND condition holds as well: a size or count threshold is crossed, a call is repeated, two things share a key, a particular order of insertion or of map iteration occurs, a value sits exactly on a boundary.",
     5: "Prefer a change about ALIASING AND LIFETIME of data: a slice, map or pointer that is now shared between two things that used to own their own (copies of a node, uses of a grouping, revisions of a module, a module and its submodules, two Process runs, the syntax tree and the schema tree), something reused or cached rather than rebuilt, a slice appended to or sorted in place, a reset that clears less than before. It must stay invisible until two holders of the shared thing both change it, or until a second run / second load / second copy comes along.",
     6: "Prefer a change about ORDER AND TIE-BREAKING or about BOUNDARIES: a sort whose comparison ignores a component or is no longer total or stable, first-wins turned into last-wins (or the reverse) where duplicates or equal keys occur, output that now follows map iteration when two keys tie, a loop that starts or stops one element early, a length-vs-capacity, byte-vs-character, signed-vs-unsigned or 32-vs-64-bit slip, a limit checked with < instead of <=. It must need equal keys, a tie, an empty or single-element or maximal collection, or a value exactly on a limit to show.",
+    7: "Prefer a change that sits in the code of ONE feature but shows only in COMBINATION with another: a uses inside an augment inside a choice, a deviation of a node that a grouping brought and a third module augmented, an identityref inside a union inside a typedef inside a grouping used from another module, a leaf-list default under a deviated type, an rpc input reached through a submodule of a dated revision, a typedef shadowed in a case of a choice of a list, a leafref path through an augmented node, config inheritance through a uses under an action. Each feature alone, and every pair the existing tests cover, must behave exactly as before.",
+    8: "Prefer a change that leaves the PRIMARY way of observing the property intact and breaks a SECONDARY observation point that the property (see its anchors / observe_at text) also covers: another accessor or field for the same fact (Entry.Path, Entry.Key, ListAttr, DefaultValues vs Default, Type.Default vs HasDefault, NameMap vs ValueMap vs Values/Names, Identities on the module entry vs Identity.Values vs the identityref type, Import.Module, Entry.Uses under StoreUses, Entry.Augments/Augmented, GetErrors vs the return value of Process, FindModuleByNamespace vs Namespace, the returned byte count vs the bytes written, the goyang command's output vs the library result), a second code path to the same result (Read vs Parse, GetModule vs Process+ToEntry, String vs Bytes vs the writer), or the same query asked a second time.",
 }
+
+KNOWN = "Do NOT deliver any of these, they have been delivered before: Entry.dup copying the child map only when it is non-empty (sharing the Dir of empty nodes); ApplyDeviate looking a deviation path up once per path text; the type dictionary's run counter advancing only when typedefs were added; Namespace() letting the outermost augment win; ReadOnly() stopping at an rpc/action input or notification; an own-prefix shortcut in Entry.Find decided by the tree root's prefix; updateCursor testing the index of the last line break with > 0; a dated file of a longer-named module taken for a candidate; the reset of the byNS namespace memo moved below an early return; an empty Write at a line start setting the line state; sync.Pool for the AST builder's seen-map or for the lexer; a memo of includingModule or of Modules.revisions; a memo of checked posix-pattern expressions."
 
 def main():
     prop, wt, out, angle = sys.argv[1], sys.argv[2], sys.argv[3], int(sys.argv[4])
@@ -44,7 +48,8 @@ Work ONLY inside your own scratch git worktree `{wt}` (a checkout of the library
 3. it looks like something a maintainer could plausibly write and a reviewer could plausibly wave through (a refactoring, an optimisation, a cache, a "simplification", a bug fix for something else, an off-by-one, a changed comparison, a reordered step) — not sabotage such as `if name == "magic"`;
 4. it does NOT show under ordinary use. {ANGLES[angle]}
    A change that any non-trivial module would expose at once is of no use; neither is one that only changes the wording of a message.
-5. do not simply revert one of the recent commits of the checkout (several recent commits start with "fix:"; undoing one is not interesting), and keep the change small (typically 1-25 lines in one or two files).
+5. {KNOWN}
+6. do not simply revert one of the recent commits of the checkout (several recent commits start with "fix:"; undoing one is not interesting), and keep the change small (typically 1-25 lines in one or two files).
 
 Then write a demonstration: a Go test file (package `yang` for pkg/yang, `indent` for pkg/indent, `yangentry` for pkg/yangentry; external `_test` packages are fine too) with one or more `Test...` functions whose names start with `TestSeededDemo`, that FAILS with your change and PASSES without it, uses only in-memory texts or temporary directories it creates itself, and is deterministic in its verdict (if the effect is probabilistic, e.g. depends on Go's map iteration order or on a goroutine schedule, repeat inside the test until the chance of a wrong verdict is negligible). The demonstration must test the property's statement (what a user observes), not an internal detail.
 {race}
